@@ -28,6 +28,8 @@ pub fn run(ctx: &Ctx, rep: &mut Report) {
         "C20" => super::real_misc::c20_pty_case(ctx, &env, &dir, case, seed, rep),
         "C06" if case % 4 == 1 => super::real_misc::c06_deep_chain_case(ctx, &env, &dir, case, seed, rep),
         "C18" if case % 2 == 0 => super::real_misc::c18_args_case(ctx, &env, &dir, case, seed, rep),
+        "C19" if case % 2 == 0 => super::real_gated::c19_pty_case(ctx, &env, &dir, case, seed, rep),
+        "C05" if case % 4 == 2 => super::real_gated::c05_sigint_case(ctx, &env, &dir, case, seed, rep),
         _ => general_case(ctx, &env, &dir, case, seed, rep),
     });
 }
